@@ -85,7 +85,7 @@ Qed.
 
 (* ---- the initial state *)
 Lemma heap_wf_empty : heap_wf empty_heap.
-Proof. split; simpl. constructor. intros k i []. Qed.
+Proof. split; [|split]; simpl. constructor. intros k i []. intros x rc o H. destruct x; discriminate. Qed.
 Theorem init_exact : ExactInv init_state.
 Proof. split. apply heap_wf_empty. intros x. unfold init_state, roots, rcof, get. simpl. destruct x; reflexivity. Qed.
 Theorem init_inv : Inv init_state.
@@ -138,4 +138,13 @@ Proof. intros. rewrite forallb_forall in H. apply H. apply in_seq. lia. Qed.
 Lemma exact_b_false : forall m, (exists x, x < length (cells (hp m)) /\ indeg m x <> rcof (hp m) x) -> ~ ExactInv m.
 Proof.
   intros m [x [L N]] [_ E]. specialize (E x). rewrite cnt_nil in E. unfold indeg in N. lia.
+Qed.
+
+(* ---- no leak: in an exact state every live object is referenced from a root or from a slot of a live container
+   (what is referenced from nowhere has been freed).  Cyclic garbage is referenced, hence not covered. *)
+Theorem no_leak : forall m, ExactInv m -> forall x, is_live (hp m) x = true -> In x (roots m ++ heap_refs (hp m)).
+Proof.
+  intros m [[_ [_ Pz]] E] x L. unfold is_live in L. destruct (get (hp m) x) as [[rc o|]|] eqn:G; try discriminate.
+  specialize (Pz _ _ _ G). specialize (E x). rewrite cnt_nil in E. unfold rcof in E. rewrite G in E.
+  apply cnt_pos_in. rewrite cnt_app. lia.
 Qed.
